@@ -490,4 +490,35 @@ def c12_scan_std(tier, seed):
 E('C12', c12_scan_abacus)
 E('C12', c12_scan_std)
 
+# ----------------------------------------------------------------------------- C14
+prop('C14', 'other',
+     'Proved for all |a|,|b| < 2^31 under both sqrt configurations: hypot returns a finite non-negative value, every '
+     'shift is valid and uhi*uhi + ulo*ulo never wraps (CBMC with the unsigned-overflow check switched on for this '
+     'unit, sqrt replaced by a linear consequence of its one-ulp contract). hypot(a,b) == hypot(b,a) == hypot(|a|,|b|) '
+     '-- this symmetry lemma did NOT close on any back end within 15 minutes (two inlined copies of the 64-bit squaring circuits) and is covered by the native stand-in only. The accuracy clause '
+     '(2 ulp / relative 1.5e-4 against the real root of a^2+b^2) is a non-linear fact over three scaling branches that '
+     'did not close in NIA; it is decided by a bounded native stand-in (random log-uniform pairs, all power-of-two '
+     'boundary pairs, the band that used to wrap) under both algorithms.',
+     technique='CBMC contracts + kissat (no wrap, valid shifts, non-NaN, non-negative); bounded native stand-in for accuracy and symmetry',
+     not_decided=['symmetry / sign-insensitivity is not decided deductively (relational lemma over two inlined copies did not close); native stand-in only'],
+     assumptions=['sqrt contract: one-ulp (proved for abacus in C13/C12 lemma, assumed for std::sqrt)', 'long double sqrtl as the oracle of the stand-in'])
+HYPOT = '_ZN9fixedmath5hypotENS_7fixed_tES0_'
+K_SQRT_HYP = (SQRT, 'pre_sqrt_hyp', 'post_sqrt_hyp')
+for cfg in ('abacus', 'stdsqrt'):
+    U('C14', 'c14.hypot.' + cfg, HYPOT, 'pre_c14', 'post_hypot', replace=[K_SQRT_HYP], cfg=cfg, cxx='fixedmath::hypot($1,$2)',
+      extra_flags=['--unsigned-overflow-check'], backends=MULBE, timeout=900)
+U('C14', 'c14.sqrt_bound', 'lem_c14_sqrt_bound', 'pre_c14_sqrtb', None, lemma=True, cxx='lem_c14_sqrt_bound($1,$2)', **INTQ)
+
+
+def c14_scan_abacus(tier, seed):
+    return _native.run_native('c14_hypot_scan_abacus', 'c14_hypot_scan.cc', 'abacus', [seed, 5000000 if tier == 'quick' else 200000000], label='bounded stand-in (not proved): accuracy clause of C14, abacus sqrt')
+
+
+def c14_scan_std(tier, seed):
+    return _native.run_native('c14_hypot_scan_std', 'c14_hypot_scan.cc', 'stdsqrt', [seed, 5000000 if tier == 'quick' else 200000000], label='bounded stand-in (not proved): accuracy clause of C14, std::sqrt')
+
+
+E('C14', c14_scan_abacus)
+E('C14', c14_scan_std)
+
 NOT_APPLICABLE = {}
